@@ -96,6 +96,12 @@ POSITIONS = [
     ("in-long-sequence", "k=(1.0,2.0,3.0,4.0,5.0,6.0,{c}7.0,8.0,9.0,10.0,11.0,12.0)\n", 2, "any"),
     ("in-long-name", "a_very_long_parameter_name_of_{c}more_than_thirty_characters=1\n", 0, "any"),
     ("in-long-string", 'x=0\nk="aaaaaaaaaaaaaaaaaaaaaaaaa{c}bbbbbbbbbbbbbbbbbbbbbbbbbbbbbbbb"\n', 6, "any"),
+    # deep inside long lexemes (error reports that keep only part of the lexeme), and behind tabs on the same line
+    ("deep-in-long-string", 'x = 0\nk = "' + "a" * 130 + "{c}" + "b" * 40 + '"\n', 10, "any"),
+    ("deep-in-long-comment", "/* " + "c" * 130 + "{c}" + " */ k = 1\n", 0, "comment"),
+    ("deep-in-multi-line-string", 'k = "' + ("line of text\n" * 12) + "{c}" + ' end"\n', 4, "any"),
+    ("behind-tabs", 'x = 0\n\tk\t=\t"a{c}b"\n', 11, "any"),
+    ("behind-tabs-unquoted", "\tk =\t\t{c}v\n", 6, "any"),
     ("in-compact-lines", "A=1\nB=2\nC=3\nD=4\nE=5\nF={c}6\nG=7\nH=8\nI=9\nJ=10\nK=11\nL=12\n", 22, "any"),
 ]
 
